@@ -58,6 +58,12 @@ func genRTStack(r *rand.Rand, depth int) V {
 	if r.Intn(6) == 0 {
 		c.Opt |= fParen
 	}
+	if r.Intn(6) == 0 {
+		c.Fifo = true // the order of removal is not part of what Unmarshal carries, nor a difference for IsEqual
+	}
+	if r.Intn(8) == 0 {
+		c.Opt |= []int{fNoPad, fLOnce, fNeg, fFwd}[r.Intn(4)] // options: the same
+	}
 	if r.Intn(6) == 0 && c.Kind != 4 {
 		c.Sym = []string{"&&", "||", "!", "plus"}[r.Intn(4)] // presentation only: Unmarshal still emits the kind label
 	}
